@@ -991,6 +991,12 @@ impl<'a, SE: extensions::ShellExtensions> WordExpander<'a, SE> {
                     return Ok(Expansion::from(ExpansionPiece::Unsplittable(s)));
                 };
 
+                // A backslash-newline (only reaches us from an unquoted here-document body)
+                // is a line continuation: both characters disappear.
+                if escaped == "\n" {
+                    return Ok(Expansion::from(ExpansionPiece::Unsplittable(String::new())));
+                }
+
                 // Inside actual double-quoted text, the parser only emits an
                 // EscapeSequence for `\X` where X is double-quote-escapable;
                 // we always strip the backslash there.
